@@ -602,6 +602,15 @@ pub fn normalize_expr(e: &mut r::Expr) {
             r::Expr::Function(body) => normalize_body(body),
             _ => {}
         }
+        // a non-finite number node has no literal: it denotes the division the generators write for it
+        if let r::Expr::Number(n) = x {
+            if n.is_nan() {
+                *x = r::Expr::Binary(r::BinOp::Div, Box::new(r::Expr::Number(0.0)), Box::new(r::Expr::Number(0.0)));
+            } else if n.is_infinite() {
+                let one = if n.is_sign_negative() { r::Expr::Unary(r::UnOp::Neg, Box::new(r::Expr::Number(1.0))) } else { r::Expr::Number(1.0) };
+                *x = r::Expr::Binary(r::BinOp::Div, Box::new(one), Box::new(r::Expr::Number(0.0)));
+            }
+        }
         // a negative literal can only be written with a minus sign: same value as the unary form
         if let r::Expr::Number(n) = x {
             if n.is_sign_negative() && !n.is_nan() {
